@@ -117,6 +117,63 @@ func genPart(cfg Config, emit func(string, bool, []string)) {
 		}
 		g.emit("new %d", ro)
 		g.addVer(-1)
+		if c%16 == 15 {
+			// a node at a capacity boundary (4, 16, 48 children): a transaction that would promote it is
+			// abandoned, then a second transaction from the SAME version changes a key below that node
+			stem := [][]byte{{}, {'s'}, {'s', 0xff}}[r.IntN(3)]
+			nkids := []int{16, 16, 4, 48}[r.IntN(4)]
+			k := func(suffix ...byte) string { return hx(append(append([]byte{}, stem...), suffix...)) }
+			g.emit("txn 0")
+			if len(stem) > 0 && r.IntN(2) == 0 {
+				g.emit("ins %s 1", hx(stem))
+			}
+			g.emit("ins %s 2", hx([]byte{'z', 'z'}))
+			for i := 0; i < nkids; i++ {
+				g.emit("ins %s %d", k(byte(3*i+5)), 10+i)
+			}
+			g.emit("commit")
+			g.addVer(0)
+			g.head = g.nvers - 1
+			g.emit("notify")
+			base := g.head
+			for round := 0; round < 3; round++ {
+				for _, q := range []string{k(), k(byte(5)), k(byte(5), 'x'), k(byte(8)), k(byte(9)), hx(nil)} {
+					g.emit("vprefix %d %s", base, q)
+					g.emit("vget %d %s", base, q)
+				}
+				g.emit("vrootwatch %d", base)
+				// the promoting transaction, abandoned
+				g.emit("txn %d", base)
+				g.emit("ins %s 99", k(byte(9)))
+				if r.IntN(2) == 0 {
+					g.emit("ins %s 98", k(byte(12)))
+				}
+				g.emit("abandon")
+				g.emit("closed")
+				// the retry from the same version
+				g.emit("txn %d", base)
+				switch round {
+				case 0:
+					g.emit("ins %s 77", k(byte(5), 'x'))
+				case 1:
+					g.emit("ins %s 78", k(byte(8)))
+				case 2:
+					g.emit("del %s", k(byte(8)))
+				}
+				g.emit("commit")
+				g.addVer(base)
+				g.emit("closed")
+				g.emit("notify")
+				g.emit("closed")
+				base = g.nvers - 1
+				g.head = base
+			}
+			for v := 0; v < g.nvers; v++ {
+				g.emit("viter %d", v)
+			}
+			emit(fmt.Sprintf("part boundary-abandon kids=%d rootonly=%d", nkids, ro), true, g.ops)
+			continue
+		}
 		if c%16 == 7 {
 			// a clone of an UNCOMMITTED transaction used as a tree in its own right: watches taken
 			// from the clone, then a transaction opened on the clone changes keys below nodes the
